@@ -32,7 +32,7 @@ theorem ladN_bytes (rk jb : List Nat) (h hf : Nat) : ∀ (fuel c y : Nat) (src :
 theorem sealOutN_bytes (rk nonce pt aad : List Nat) (t fuel : Nat) (hpb : ∀ x ∈ pt, x < 2 ^ 8) :
     ∀ x ∈ sealOutN rk nonce pt aad t fuel, x < 2 ^ 8 := by
   intro x hx
-  unfold sealOutN at hx
+  unfold sealOutN sealOutJ at hx
   simp only [List.mem_append] at hx
   rcases hx with h' | h'
   · exact ladN_bytes _ _ _ _ _ _ _ _ hpb x h'
@@ -44,7 +44,7 @@ theorem sealOutN_bytes (rk nonce pt aad : List Nat) (t fuel : Nat) (hpb : ∀ x 
 
 theorem sealOutN_length (rk nonce pt aad : List Nat) (t fuel : Nat) (ht : t ≤ 16) (hfuel : fuelNeed pt.length ≤ fuel) :
     (sealOutN rk nonce pt aad t fuel).length = pt.length + t := by
-  unfold sealOutN
+  unfold sealOutN sealOutJ
   simp only []
   rw [List.length_append, ladN_length _ _ _ _ _ _ _ _ hfuel, List.length_take, lanes_length]
   omega
